@@ -44,6 +44,12 @@ func runOne(ctx context.Context, sp solverSpec, file string, timeoutS int) (stri
 	first := ""
 	for _, l := range strings.Split(o, "\n") {
 		l = strings.TrimSpace(l)
+		if strings.HasPrefix(l, "(error") || strings.Contains(l, "Parse Error") || strings.HasPrefix(l, "(error ") {
+			// an error before the answer means the script was not understood: never trust the answer
+			first = "unknown"
+			o = "SOLVER-ERROR " + o
+			break
+		}
 		if l == "sat" || l == "unsat" || l == "unknown" || l == "timeout" {
 			first = l
 			break
